@@ -5,6 +5,7 @@ go 1.21.1
 require (
 	github.com/fxamacker/cbor/v2 v2.5.0
 	github.com/ghodss/yaml v1.0.0
+	github.com/hashicorp/go-version v1.6.0
 	github.com/safing/jess v0.3.3
 	github.com/safing/portbase v0.18.6
 	github.com/vmihailenco/msgpack/v5 v5.4.1
@@ -34,7 +35,6 @@ require (
 	github.com/gorilla/websocket v1.5.1 // indirect
 	github.com/hashicorp/errwrap v1.1.0 // indirect
 	github.com/hashicorp/go-multierror v1.1.1 // indirect
-	github.com/hashicorp/go-version v1.6.0 // indirect
 	github.com/klauspost/cpuid/v2 v2.2.6 // indirect
 	github.com/mitchellh/copystructure v1.2.0 // indirect
 	github.com/mitchellh/reflectwalk v1.0.2 // indirect
